@@ -37,7 +37,7 @@ def case_files(case):
 
 
 def one(args):
-    import file_util
+    file_util = hostrun.import_cli("file_util")
     k, case = args
     W = tempfile.mkdtemp(prefix="c16", dir=os.environ.get("VERIF_SCRATCH"))
     out_recs = []
